@@ -98,8 +98,8 @@ type Case struct {
 	Stream     bool        `json:"stream,omitempty"` // call Stream instead of Invoke
 	// Call: "" (Invoke, or Stream when Stream is set) | "collect" | "transform": the entry the
 	// caller uses (the input of Collect / Transform is a one-chunk stream)
-	Call string `json:"call,omitempty"`
-	Interrupt  *IntSpec    `json:"interrupt,omitempty"`
+	Call      string   `json:"call,omitempty"`
+	Interrupt *IntSpec `json:"interrupt,omitempty"`
 	// Again: after an interrupted run has been resumed to completion, resume once more from
 	// the checkpoint the store still holds (the last one written): a second, independent
 	// continuation of the same interrupted run. For the model and the oracle it is one more
@@ -231,21 +231,22 @@ func obsState(s *St) StateOb {
 }
 
 type rec struct {
-	mu      sync.Mutex
-	seq     int64
-	events  []*Event
-	overlap int32
-	gens    map[int]int64 // run -> generator calls made on behalf of that run
-	ycount  uint64
-	yseed   uint64
-	active  int64 // node bodies and critical sections in flight
-	mods    map[int][]int // run -> graphs the modifier was applied to
-	rounds  map[[3]int]int // (run, node, what) -> how often it has been executed in that run
-	replays []replayInfo
-	unrolled *Case
-	rerunIDs map[int]bool // lambdas that interrupt themselves once
-	firstCtx map[*St]ctxInfo // per state object: the context of the first critical section on it
-	probes   uint64
+	mu        sync.Mutex
+	seq       int64
+	events    []*Event
+	overlap   int32
+	lockSplit int32         // set by probe
+	gens      map[int]int64 // run -> generator calls made on behalf of that run
+	ycount    uint64
+	yseed     uint64
+	active    int64          // node bodies and critical sections in flight
+	mods      map[int][]int  // run -> graphs the modifier was applied to
+	rounds    map[[3]int]int // (run, node, what) -> how often it has been executed in that run
+	replays   []replayInfo
+	unrolled  *Case
+	rerunIDs  map[int]bool    // lambdas that interrupt themselves once
+	firstCtx  map[*St]ctxInfo // per state object: the context of the first critical section on it
+	probes    uint64
 }
 
 type ctxInfo struct {
@@ -256,9 +257,9 @@ type ctxInfo struct {
 // replayInfo describes a second continuation (Case.Again) of run From from its last checkpoint.
 type replayInfo struct {
 	From       int
-	Run        int    // run index the continuation was executed under (Runs + From; renumbered later)
-	CutSeq     int64  // sequence number of the last resume marker of run From
-	PrefixGens int64  // generator calls run From had made when that checkpoint was written
+	Run        int   // run index the continuation was executed under (Runs + From; renumbered later)
+	CutSeq     int64 // sequence number of the last resume marker of run From
+	PrefixGens int64 // generator calls run From had made when that checkpoint was written
 }
 
 // gen is called by every state generator. A generator is user code that may take time
@@ -375,7 +376,7 @@ func (h *rec) probe(ctx context.Context, s *St, is2 bool) {
 		defer close(entered)
 		seen := func(st *St) {
 			if st == s && atomic.LoadInt32(&inside) == 1 {
-				atomic.StoreInt32(&h.overlap, 1)
+				atomic.StoreInt32(&h.lockSplit, 1)
 			}
 		}
 		if first.is2 {
@@ -1017,15 +1018,16 @@ type RunOut struct {
 }
 
 type Obs struct {
-	BuildErr string    `json:"build_err,omitempty"`
-	Events   []*Event  `json:"events,omitempty"`
-	Resumes  []Resume  `json:"resumes,omitempty"`
-	Finals   []FinalOb `json:"finals,omitempty"`
-	Results  []RunOut  `json:"results,omitempty"`
-	Gens     int64     `json:"gens"`
-	Overlap  bool      `json:"overlap"`
-	IntSeen  bool      `json:"interrupted,omitempty"`
-	ModRuns  []int     `json:"mod_runs,omitempty"` // runs (final indices) resumed with a state modifier
+	BuildErr  string    `json:"build_err,omitempty"`
+	Events    []*Event  `json:"events,omitempty"`
+	Resumes   []Resume  `json:"resumes,omitempty"`
+	Finals    []FinalOb `json:"finals,omitempty"`
+	Results   []RunOut  `json:"results,omitempty"`
+	Gens      int64     `json:"gens"`
+	Overlap   bool      `json:"overlap"`
+	LockSplit bool      `json:"lock_split,omitempty"` // a probe callback entered during another section on the same state
+	IntSeen   bool      `json:"interrupted,omitempty"`
+	ModRuns   []int     `json:"mod_runs,omitempty"` // runs (final indices) resumed with a state modifier
 }
 
 type FinalOb struct {
@@ -1433,6 +1435,7 @@ func (c *Case) execute() (o Obs, hang bool) {
 	}
 	sort.SliceStable(o.Results, func(i, j int) bool { return o.Results[i].Run < o.Results[j].Run })
 	o.Overlap = atomic.LoadInt32(&h.overlap) != 0
+	o.LockSplit = atomic.LoadInt32(&h.lockSplit) != 0
 	return o, false
 }
 
@@ -1772,6 +1775,9 @@ func (c *Case) oracle(o *Obs) (string, string) {
 	}
 	if o.Overlap {
 		return "two critical sections on the same state object overlapped (in-critical-section flag)", "overlap"
+	}
+	if o.LockSplit {
+		return "a ProcessState callback requested through the context of another node of the same run began while a critical section on the same state object was in progress: the two contexts carry different locks for one state", "lock-split"
 	}
 	type lk struct{ run, node, kc int }
 	pos := map[lk]int{}
